@@ -19,7 +19,7 @@ PROP = dict(
     # no-failing-input-found; the on/off and literal/variable oracles give concrete failing inputs
     mismatch_is_violation=False,
     rule="(1) model tie: every raw-string program of /repo/abra_core/tests/integration/e2e_bytecode.rs (read from the current tree), "
-         "11 rule-directed snippets and (quick) 160 / (thorough) 5000 programs of a typed generator (ints, floats, bools, arrays, a struct, "
+         "11 rule-directed snippets and (quick) 160 / (thorough) 2000 programs of a typed generator (ints, floats, bools, arrays, a struct, "
          "if/while, compound assignment, bare expression statements, boundary literals): the real assembly before `optimize` is given "
          "to Opt.optimize and (first and last pass in quick, every pass in thorough) to Opt.pass; the answer must equal the real "
          "optimized assembly line for line incl. annotations; (2) each program runs with the optimizer on and off: output, final "
